@@ -334,7 +334,7 @@ class BaToInt(Unit):
 
     def canaries(self, case, a, out, X):
         if out.kind == "return" and case["n"] >= 1:
-            yield "canary:value-is-zero", out.value[0] == 0
+            yield "canary:value-off-by-one", out.value[0] == spec_ba_to_int(list(a.b)) + 1
 
 
 def _mask_cases(tier):
@@ -461,7 +461,9 @@ class DecodeField(Unit):
 
     def canaries(self, case, a, out, X):
         if out.kind == "return":
-            yield "canary:field-is-zero", out.value["f"] == 0
+            m = int(case["mask"], 16)
+            sn = Snap(a.buf)
+            yield "canary:field-off-by-one", out.value["f"] == spec_decode_field(spec_ba_to_int([sn.at(a.off + k) for k in range(nbytes(m))]), m) + 1
 
 
 class DecodeShort(Unit):
